@@ -79,7 +79,7 @@ def valspec():
 # ---------------------------------------------------------------------------
 # formula specs -> formula text against the current schema
 
-N_FORMS = 36
+N_FORMS = 40
 
 def _cols(doc, tref, data_only=False, formula_only=False):
   out = []
@@ -148,6 +148,15 @@ def formula_text(doc, tref, spec, self_col=None, max_ref=None):
     if dcols:
       return '$%s' % dcols[a % len(dcols)]['colId']
     return 'DATE(1999, 12, 31)'
+  if form == 38: return '10.0 / ($id %% %d)' % (2 + a % 2)          # raises for some rows
+  if form == 39: return 'int(str(%s) or "x")' % ('$' + c1 if c1 else '$id')   # ValueError for non-numeric text
+  if form in (36, 37):
+    # cross-row chain through ANY column of the same table (later columns included): the row direction keeps it
+    # well-founded while the column graph may be cyclic, so evaluation order really matters (C06)
+    allc = [x for x in _cols(doc, tref) if x['colId'] != self_col and x['colId'] != 'group']
+    if allc:
+      x = allc[(a + c) % len(allc)]
+      return '%s(rec, order_by=None).%s' % ('PREVIOUS' if form == 36 else 'NEXT', x['colId'])
   if form in (34, 35):
     # dereference a record-valued *formula* column (lookupOne / PREVIOUS / NEXT results held in an Any column)
     import re as _re
@@ -226,7 +235,7 @@ def formula_text(doc, tref, spec, self_col=None, max_ref=None):
 
 
 # reference chains and lookups are what real documents use most: weight them up
-FORM_WEIGHTS = {34: 4, 35: 2, 1: 2, 2: 2, 3: 2, 5: 6, 6: 4, 7: 4, 8: 4, 9: 3, 10: 2, 11: 2, 12: 2, 13: 2, 14: 2, 15: 2, 18: 3,
+FORM_WEIGHTS = {38: 3, 39: 2, 36: 3, 37: 2, 34: 4, 35: 2, 1: 2, 2: 2, 3: 2, 5: 6, 6: 4, 7: 4, 8: 4, 9: 3, 10: 2, 11: 2, 12: 2, 13: 2, 14: 2, 15: 2, 18: 3,
                 19: 2, 20: 2, 21: 2}
 _FORMS = []
 for _f in range(N_FORMS):
@@ -757,7 +766,7 @@ def op_strategy(kind):
   elif kind == 'meta_col':
     base.update(b=_sel, c=_sel, t=_sel, name=st.integers(0, len(COL_NAMES) - 1), f=fspec())
   elif kind == 'trigger':
-    base.update(b=_sel, c=_sel, t=_mask, f=fspec())
+    base.update(b=_sel, c=_sel, t=st.one_of(st.just(0), _mask), f=fspec())
   elif kind in ('choices',):
     base.update(b=_sel, c=_sel, t=_sel)
   elif kind in ('copyfrom', 'bad', 'revive', 'rmref'):
@@ -779,7 +788,7 @@ PROFILES = {
     'add': 12, 'update': 14, 'remove': 5,
     'addtable': 3, 'addcol': 4, 'addfcol': 12, 'addref': 5, 'rmcol': 4, 'rencol': 3, 'modtype': 3,
     'modformula': 6, 'toggle': 2, 'rmtable': 1, 'rentable': 1, 'summary': 4, 'summaryupd': 2, 'revive': 7, 'rmref': 5,
-    'reverse': 1, 'meta_col': 2, 'displaycol': 1, 'choices': 1,
+    'reverse': 1, 'meta_col': 2, 'displaycol': 1, 'choices': 1, 'trigger': 3, 'replace': 1,
   },
   'schema': {
     'add': 5, 'update': 4, 'remove': 2,
@@ -801,6 +810,11 @@ PROFILES = {
   },
   # data edits under reference-following formulas
   'refdata': {'revive': 1, 'update': 22, 'add': 6, 'remove': 5, 'addfcol': 9, 'addref': 5, 'modformula': 2, 'reverse': 1, 'modtype': 1},
+  # trigger-formula (data) columns under record churn: add/remove/replace in the same bundle
+  'triggers': {'trigger': 10, 'add': 12, 'remove': 10, 'replace': 4, 'update': 8, 'addcol': 2, 'addfcol': 3, 'modtype': 2,
+               'rmcol': 1, 'rencol': 1},
+  # same-table formula chains across rows (evaluation-order sensitive)
+  'rowchains': {'addfcol': 14, 'modformula': 8, 'add': 8, 'update': 10, 'remove': 4, 'toggle': 1, 'addcol': 2},
   'records': {
     'add': 12, 'update': 12, 'remove': 6, 'replace': 1, 'addcol': 1, 'addfcol': 2, 'bad': 1,
   },
